@@ -24,6 +24,20 @@ CHECKS = {
         engine='tlc-options'),
 }
 
+CHECKS['C05'] = dict(
+    text='spec/MiniPy.tla gives the operational semantics of the converted Python subset (one TLC step = one CFG-granularity '
+         'node); spec/CfgSound.tla monitors it against the graph exported from the real cfg.build. TLC explores ALL executions '
+         '(all branch-decision vectors, loop trips 0..2) of every control-flow skeleton that spec/MiniPyGen.tla derives up to '
+         'the size bound (quick: <=4 statements, thorough: <=5 plus nested functions) plus seeded random larger programs, and '
+         'checks every executed transfer to be an edge, termination at exit/raise nodes, mirror links, single entry and the '
+         'per-statement entry/exit sets against lexical ownership. Every explored execution is also replayed on CPython '
+         '(model validation) in the same run.',
+    note='Assumes the rendered program (one statement per line) identifies CFG nodes by line; nonlocal/global declaration nodes '
+         'are contracted; exempt as the property states: steps while an exception propagates through finally, transfers caused '
+         'by implicit or callee-raised exceptions. Bounded: MaxTrip=2, <=10/12 decisions, <=60/80 steps per execution.',
+    technique='TLA+ operational semantics + monitor invariant, TLC over all executions, claims exported from the real cfg.build',
+    design_ref='DESIGN.md sections 3.1-3.3, 5 (C05)', engine='tlc-minipy')
+
 NOT_CLAIMED = {}
 
 
